@@ -12,6 +12,7 @@ use std::sync::{Arc, OnceLock};
 pub type S3Call<I, O> = for<'a> fn(&'a dyn S3, S3Request<I>) -> BoxFuture<'a, S3Result<S3Response<O>>>;
 
 pub const GEN_DEPTH: u32 = 6;
+pub const FULL_OUTPUT: &str = "=FULL(every member present, lists of two, all levels)";
 pub const FULL_INPUT: &str = "=FULL(every member present, lists of two, all levels)";
 
 pub struct Driver<I: 'static, O: 'static> {
@@ -36,8 +37,9 @@ impl<I: Gen, O: Gen> Driver<I, O> {
     fn oa(&self) -> &Alts<O> {
         self.out_alts.get_or_init(|| {
             ALLOW_OFFSET_TIMESTAMPS.with(|c| c.set(true));
-            let a = O::alts(Pos::Xml, GEN_DEPTH);
+            let mut a = O::alts(Pos::Xml, GEN_DEPTH);
             ALLOW_OFFSET_TIMESTAMPS.with(|c| c.set(false));
+            a.push((FULL_OUTPUT.to_owned(), Arc::new(|v: &mut O| *v = O::full(Pos::Xml, 2 * GEN_DEPTH + 2))));
             a
         })
     }
